@@ -1,0 +1,7 @@
+//go:build !verif
+
+package fs
+
+// Verification hooks are compiled in only with the "verif" build tag.
+
+func verifYield(point string, name string) {}
